@@ -158,10 +158,10 @@ theorem parse_linkg (B : Handler → Nat → Nat → List Node → Prop) (F : Ha
     intro h hh
     obtain ⟨_, h0', h1, h6⟩ := hHs h hh
     exact ⟨h0', h1, fun v hv => by simpa [hctx0] using h6 v hv⟩
-  obtain ⟨regs', fs, hpf, hrels⟩ := parseFuncs_okg B F ctx0 L.bytes L.frbOff sF (s.handlers.map (·.name)) s.globals h0 s.handlers hcs hH hfragH 0
+  obtain ⟨regs', fs, dcl', hpf, hrels⟩ := parseFuncs_okg B F ctx0 L.bytes L.frbOff sF (s.handlers.map (·.name)) s.globals h0 s.handlers hcs hH hfragH 0 0
     (by
       intro j hc hj
-      refine ⟨blockOff hcs 92 j, by simpa using L.at_record j hc hj, L.at_block j hc hj, ?_⟩
+      refine ⟨blockOff hcs 92 j, by have := wsum_le_blockOff hcs 92 j; omega, by simpa using L.at_record j hc hj, L.at_block j hc hj, ?_⟩
       have := (L.at_block j hc hj).le
       rw [hsize] at this
       have e : blockOff L.hs 92 j = blockOff hcs 92 j := rfl
